@@ -236,16 +236,12 @@ IsCaller(d) == d < Len(plan)
 C == ctl[Depth]
 SetPc(pc) == ctl' = [ctl EXCEPT ![Depth].pc = pc]
 StartPc(t) == IF t \in {"ReadFile", "Attachment"} THEN "pro" ELSE "try"
-StageOfPc(pc) == CASE pc = "pro" -> "pro" [] pc = "mem" -> "mem" [] pc = "fin" -> "fin" [] OTHER -> "try"
+StageOfPc(pc) == CASE pc = "pro" -> "pro" [] pc = "mem" -> "mem" [] OTHER -> "try"
 CallStage(t) == IF t = "ArchiveLoop" THEN "mem" ELSE "try"
 \* classes the input bytes can cause at a stage: everything, except where only the PATH is looked at
 EnvClasses(t, st) == CASE t = "ReadFile" /\ st = "pro"   -> {"TooLarge", "NotSupported"}
                        [] t = "Attachment" /\ st = "pro" -> {"NotSupported"}
                        [] OTHER -> Class
-\* members still to come in the nearest enclosing loop layer (identifies WHICH member a fault hits)
-MLeft == LET js == {j \in 1..Depth : stack[j].t \in {"ArchiveLoop", "Attachment"}} IN
-         IF js = {} THEN 0 ELSE ctl[CHOOSE j \in js : \A i \in js : i <= j].m
-
 G_Enter ==
     /\ Depth < Len(plan) /\ pending = None
     /\ LET p == plan[Depth + 1] IN
@@ -260,25 +256,41 @@ G_Enter ==
        /\ PushCore(p.t, p.k)
     /\ UNCHANGED <<plan, faults, flog>>
 
-\* the environment (= the bytes) makes the running frame fail
+\* the environment (= the bytes) makes the running frame fail.  Inside the wrapper the failing statement may
+\* sit in the try body or in a finally nested in it ("fin"), before or after the yields.
+EnvStages(t, pc) == IF pc \in {"try", "wait", "ser"} THEN {"try", "fin"} \cap StagesOf(t) ELSE {StageOfPc(pc)} \cap StagesOf(t)
+MLeftAt(d) == LET js == {j \in 1..d : stack[j].t \in {"ArchiveLoop", "Attachment"}} IN
+              IF js = {} THEN 0 ELSE ctl[CHOOSE j \in js : \A i \in js : i <= j].m
 G_Env ==
     /\ phase = "run" /\ Depth > 0 /\ pending = None /\ faults < MaxFaults
-    /\ C.pc \in {"pro", "try", "mem", "fin", "ser", "wait"}
-    /\ \E c \in EnvClasses(Top.t, StageOfPc(C.pc)) :
-          /\ StageOfPc(C.pc) \in StagesOf(Top.t)
-          /\ RaiseCore(Depth, StageOfPc(C.pc), c)
-          /\ flog' = Append(flog, [d |-> Depth, t |-> Top.t, k |-> Top.k, st |-> StageOfPc(C.pc), c |-> c,
-                                   y |-> yielded, ml |-> MLeft])
+    /\ C.pc \in {"pro", "try", "mem", "ser", "wait"}
+    /\ \E st \in EnvStages(Top.t, C.pc) : \E c \in EnvClasses(Top.t, st) :
+          /\ RaiseCore(Depth, st, c)
+          /\ flog' = Append(flog, [d |-> Depth, t |-> Top.t, k |-> Top.k, st |-> st, c |-> c,
+                                   y |-> yielded, ml |-> MLeftAt(Depth)])
     /\ faults' = faults + 1
     /\ UNCHANGED <<plan, ctl>>
+
+\* a pass-through layer written as `for r in child(...): yield r` runs its loop body BETWEEN the yields, while
+\* the child generator is suspended: it can fail there; the suspended children are dropped (closed)
+PassThrough(f) == f.t \in {"ReadFile", "ArchiveEntry", "Extractor"}
+G_EnvMid ==
+    /\ phase = "run" /\ Depth > 1 /\ pending = None /\ faults < MaxFaults /\ yielded > 0
+    /\ \E d \in 1..(Depth - 1) : \E st \in {"try"} : \E c \in Class :
+          /\ PassThrough(stack[d]) /\ ctl[d].pc = "wait"
+          /\ RaiseCore(d, st, c)
+          /\ ctl' = SubSeq(ctl, 1, d)
+          /\ flog' = Append(flog, [d |-> d, t |-> stack[d].t, k |-> stack[d].k, st |-> st, c |-> c,
+                                   y |-> yielded, ml |-> MLeftAt(d)])
+    /\ faults' = faults + 1
+    /\ UNCHANGED plan
 
 \* normal progress of the top frame
 G_Step ==
     /\ phase = "run" /\ Depth > 0 /\ pending = None
     /\ \/ /\ Top.t = "Extractor" /\ ~IsCaller(Depth) /\ C.pc = "try"
           /\ \/ C.y < C.ny /\ YieldCore /\ ctl' = [ctl EXCEPT ![Depth].y = @ + 1]
-             \/ C.y = C.ny /\ SetPc("fin") /\ UNCHANGED core
-       \/ /\ Top.t = "Extractor" /\ ~IsCaller(Depth) /\ C.pc = "fin" /\ ReturnCore /\ ctl' = Pop(ctl)
+             \/ C.y = C.ny /\ ReturnCore /\ ctl' = Pop(ctl)
        \/ /\ Top.t \in {"Extractor", "ArchiveEntry", "ReadFile"} /\ C.pc = "wait" /\ ReturnCore /\ ctl' = Pop(ctl)
        \/ /\ Top.t \in {"ReadFile"} /\ C.pc = "pro" /\ SetPc("try") /\ UNCHANGED core
        \/ /\ Top.t = "ArchiveLoop" /\ C.pc = "try" /\ SetPc("mem") /\ UNCHANGED core
@@ -323,17 +335,19 @@ G_Handle ==
        \/ /\ Top.t = "ArchiveLoop"
           /\ \/ G_Unwind
              \/ pending = "Other" /\ (\E c2 \in {"Failed", "Encrypted"} : WrapCore(c2)) /\ UNCHANGED ctl
-             \/ Top.rs = "mem" /\ AbsorbCore /\ SetPc("mem")
+             \/ /\ Top.rs = "mem" /\ AbsorbCore             \* skip the member that could not be read
+                /\ ctl' = [ctl EXCEPT ![Depth].pc = "mem", ![Depth].m = IF C.pc = "mem" /\ @ > 0 THEN @ - 1 ELSE @]
        \/ /\ Top.t = "ArchiveEntry"
           /\ IF "EntryReraises" \in Mutations THEN G_Unwind ELSE AbsorbCore /\ SetPc("wait")
        \/ /\ Top.t = "Attachment"
           /\ \/ (Top.rs = "pro" \/ pending = "Encrypted") /\ G_Unwind
-             \/ Top.rs # "pro" /\ pending # "Encrypted" /\ AbsorbCore /\ SetPc("pro")
+             \/ /\ Top.rs # "pro" /\ pending # "Encrypted" /\ AbsorbCore     \* next attachment
+                /\ ctl' = [ctl EXCEPT ![Depth].pc = "pro", ![Depth].m = IF C.pc = "try" /\ @ > 0 THEN @ - 1 ELSE @]
        \/ /\ Top.t = "Cli"
           /\ IF "CliNoCatch" \in Mutations /\ pending = "Other" THEN G_Unwind ELSE AbsorbCore /\ SetPc("end")
     /\ UNCHANGED <<plan, faults, flog>>
 
-Next == G_Enter \/ G_Env \/ G_Step \/ G_PartialPrint \/ G_Handle
+Next == G_Enter \/ G_Env \/ G_EnvMid \/ G_Step \/ G_PartialPrint \/ G_Handle
 Spec == Init /\ [][Next]_vars /\ WF_vars(Next)
 
 \* termination OF THE DESIGN: no behaviour runs forever without reaching the end of the call
